@@ -163,6 +163,11 @@ def _operand_text(valkind: str, v: int, expr_text, upper: bool) -> str:
         return "some_val"
     if valkind == "expr":
         return expr_text.upper().replace("0X", "0x") if upper else expr_text
+    if valkind.startswith("litpad") and v >= 0:
+        # the same value written with redundant leading zeros (into the next digit-count class and beyond): the width
+        # comes from the VALUE, not from the number of digits written
+        digits = format(v, "X" if upper else "x")
+        return "0x" + digits.zfill(len(digits) + 2 + 2 * (v % 2))
     return _hex(v, upper)
 
 
@@ -189,6 +194,7 @@ def _variants(mn: str, shape: str):
     if shape == "implied":
         return [("none", 0, None)]
     out = [(f"lit:{v}", v, None) for v in LITERALS]
+    out += [(f"litpad:{v}", v, None) for v in LITERALS if 0 <= v < 0x10000]
     out += [("sym", v, None) for v in SYM_VALUES]
     out += [("expr", v, t) for t, v in EXPRS]
     if mn in REL8:
